@@ -29,6 +29,19 @@ var propRules = map[string][]string{}
 func claim(prop string, rules ...string) { propRules[prop] = append(propRules[prop], rules...) }
 
 func rulesFor(prop string) ([]*ruleInfo, error) {
+	if prop == "ALL" {
+		// every rule once (used by the seed tools, not by the manifest)
+		var ns []string
+		for n := range allRules {
+			ns = append(ns, n)
+		}
+		sort.Strings(ns)
+		var rs []*ruleInfo
+		for _, n := range ns {
+			rs = append(rs, allRules[n])
+		}
+		return rs, nil
+	}
 	names, ok := propRules[prop]
 	if !ok {
 		return nil, fmt.Errorf("no rules registered for property %s", prop)
@@ -211,7 +224,7 @@ func init() {
 }
 
 func init() {
-	claim("C07", "S1", "S2", "S3", "S4")
+	claim("C07", "S1", "S2", "S3", "S4", "S5")
 }
 
 func init() {
@@ -231,7 +244,7 @@ func init() {
 }
 
 func init() {
-	claim("C09", "O1", "O2", "O3", "O4", "O5", "O7", "S4")
+	claim("C09", "O1", "O2", "O3", "O4", "O5", "O7", "O8", "S4")
 	claim("C01", "O1")
 }
 
@@ -244,11 +257,11 @@ func init() {
 }
 
 func init() {
-	claim("C11", "E1", "E2", "E3", "E4", "E5", "E6", "N4", "N6", "B3")
+	claim("C11", "E1", "E2", "E3", "E4", "E5", "E6", "E7", "N4", "N6", "B3")
 }
 
 func init() {
-	claim("C12", "H1", "H2", "H3", "H4", "H5", "D2")
+	claim("C12", "H1", "H2", "H3", "H4", "H5", "H6", "D2")
 }
 
 func init() {
@@ -276,5 +289,5 @@ func init() {
 }
 
 func init() {
-	claim("C08", "A1", "A2", "A3", "Z1", "N1")
+	claim("C08", "A1", "A2", "A3", "A5", "Z1", "N1")
 }
